@@ -107,7 +107,7 @@ def oracle_burst(ctx, case, out):
             stored[ev["k"]] = ev["v"]
         if ev.get("check_bound"):
             bound_keys = set(r["keys"])
-        for c in r["calls"] or []:
+        for c in (r["calls"] or []) + (r.get("all") or []):
             if c["ok"]:
                 okcalls.add((c["k"], c["v"]))
     final = set(out["events"][-1]["keys"])
